@@ -1600,7 +1600,7 @@ impl<'a> Engine<'a> {
             want.sort();
             match parse_listing(&got) {
                 Some(g) if g == want => {}
-                _ => this.h.viol("C19", "iterator-debug", format!("Debug of {} after {} of {} items is `{}`; the not-yet-yielded entries are {:?}", what, j, len, got, want)),
+                _ => this.h.viol("C19", "iterator-debug", format!("Debug of {} (j = {}, {} entries stored) is `{}`; the entries it yields afterwards are {:?}", what, j, len, got, want)),
             }
         };
         match which {
@@ -1643,101 +1643,50 @@ impl<'a> Engine<'a> {
                     self.h.viol("C19", "map-display", format!("Display is `{}`, expected `{}`", got, want));
                 }
             }
-            3 => {
-                let m = s.fr.get();
-                let mut it = m.iter();
-                let mut rest = obs.clone();
-                for _ in 0..j {
-                    if let Some((k, _)) = it.next() {
-                        rest.retain(|e| e.0 != k.class());
-                    }
+            3..=10 => {
+                // The iterator is advanced in one of several ways (plain next() calls, nth, skip, take, step_by,
+                // an overshooting nth, ...), rendered, and then drained with next(): what it still yields after
+                // the rendering is, by definition, what the rendering had to list.
+                const ADV: [&str; 8] = ["next()*j", "nth(j-1)", "by_ref().skip(j).next()", "by_ref().take(j).count()", "by_ref().step_by(2).take(..).count()", "nth(beyond the end)", "by_ref().take(j).last()", "by_ref().take(j).fold()"];
+                let style = self.rng.usize_below(ADV.len());
+                if !self.light { self.cx.rep.hit(&format!("fmt-advance:{}", ADV[style])); }
+                macro_rules! probe {
+                    ($what:expr, $mk:expr, $render:expr) => {{
+                        let mut it = $mk;
+                        match style {
+                            0 => { for _ in 0..j { let _ = it.next(); } }
+                            1 => { if j > 0 { let _ = it.nth(j - 1); } }
+                            2 => { let _ = it.by_ref().skip(j).next(); }
+                            3 => { let _ = it.by_ref().take(j).count(); }
+                            4 => { let _ = it.by_ref().step_by(2).take((j + 1) / 2).count(); }
+                            5 => { let _ = it.nth(j + len); }
+                            6 => { let _ = it.by_ref().take(j).last(); }
+                            _ => { let _ = it.by_ref().take(j).fold(0usize, |a, _| a + 1); }
+                        }
+                        let got = format!("{:?}", it);
+                        let want: Vec<String> = it.map($render).collect();
+                        check_listing(self, &format!("{} advanced by {}", $what, ADV[style]), got, want);
+                    }};
                 }
-                check_listing(self, "Iter", format!("{:?}", it), rest.iter().map(pair).collect());
-            }
-            4 => {
-                let m = s.fr.get_mut();
-                let mut it = m.iter_mut();
-                let mut rest = obs.clone();
-                for _ in 0..j {
-                    if let Some((k, _)) = it.next() {
-                        rest.retain(|e| e.0 != k.class());
-                    }
-                }
-                check_listing(self, "IterMut", format!("{:?}", it), rest.iter().map(pair).collect());
-            }
-            5 => {
-                let m = s.fr.get();
-                let mut it = m.keys();
-                let mut rest = obs.clone();
-                for _ in 0..j {
-                    if let Some(k) = it.next() {
-                        rest.retain(|e| e.0 != k.class());
-                    }
-                }
-                check_listing(self, "Keys", format!("{:?}", it), rest.iter().map(kd).collect());
-            }
-            6 => {
-                let m = s.fr.get();
-                let mut it = m.values();
-                let mut rest = obs.clone();
-                for _ in 0..j {
-                    if let Some(v) = it.next() {
-                        let p = v.payload();
-                        if let Some(i) = rest.iter().position(|e| e.2 == p) { rest.remove(i); } // only one: values may repeat
-                    }
-                }
-                check_listing(self, "Values", format!("{:?}", it), rest.iter().map(vd).collect());
-            }
-            7 => {
-                let m = s.fr.get_mut();
-                let mut it = m.values_mut();
-                let mut rest = obs.clone();
-                for _ in 0..j {
-                    if let Some(v) = it.next() {
-                        let p = v.payload();
-                        if let Some(i) = rest.iter().position(|e| e.2 == p) { rest.remove(i); } // only one: values may repeat
-                    }
-                }
-                check_listing(self, "ValuesMut", format!("{:?}", it), rest.iter().map(vd).collect());
-            }
-            8 | 9 | 10 => {
-                // owner-transferring iterators: run on a clone so the history continues
-                if !s.model.is_empty() || self.rng.chance(1, 4) {
-                    let mut c: Map<F::K, F::V, N> = s.fr.get().clone();
-                    let mut rest = obs.clone();
-                    if which == 8 {
-                        let mut it = c.into_iter();
-                        for _ in 0..j {
-                            if let Some((k, _)) = it.next() {
-                                rest.retain(|e| e.0 != k.class());
+                match which {
+                    3 => probe!("Iter", s.fr.get().iter(), |(k, v): (&F::K, &F::V)| pair(&(k.class(), k.tag(), v.payload()))),
+                    4 => probe!("IterMut", s.fr.get_mut().iter_mut(), |(k, v): (&F::K, &mut F::V)| pair(&(k.class(), k.tag(), v.payload()))),
+                    5 => probe!("Keys", s.fr.get().keys(), |k: &F::K| kd(&(k.class(), k.tag(), 0))),
+                    6 => probe!("Values", s.fr.get().values(), |v: &F::V| vd(&(0, 0, v.payload()))),
+                    7 => probe!("ValuesMut", s.fr.get_mut().values_mut(), |v: &mut F::V| vd(&(0, 0, v.payload()))),
+                    _ => {
+                        // owner-transferring iterators: run on a clone so the history continues
+                        if !s.model.is_empty() || self.rng.chance(1, 4) {
+                            let mut c: Map<F::K, F::V, N> = s.fr.get().clone();
+                            if which == 8 {
+                                probe!("IntoIter", c.into_iter(), |(k, v): (F::K, F::V)| pair(&(k.class(), k.tag(), v.payload())));
+                            } else if which == 9 {
+                                probe!("IntoKeys", c.clone().into_keys(), |k: F::K| kd(&(k.class(), k.tag(), 0)));
+                                probe!("IntoValues", c.into_values(), |v: F::V| vd(&(0, 0, v.payload())));
+                            } else {
+                                probe!("Drain", c.drain(), |(k, v): (F::K, F::V)| pair(&(k.class(), k.tag(), v.payload())));
                             }
                         }
-                        check_listing(self, "IntoIter", format!("{:?}", it), rest.iter().map(pair).collect());
-                    } else if which == 9 {
-                        let mut it = c.clone().into_keys();
-                        for _ in 0..j {
-                            if let Some(k) = it.next() {
-                                rest.retain(|e| e.0 != k.class());
-                            }
-                        }
-                        check_listing(self, "IntoKeys", format!("{:?}", it), rest.iter().map(kd).collect());
-                        let mut it = c.into_values();
-                        let mut rest = obs.clone();
-                        for _ in 0..j {
-                            if let Some(v) = it.next() {
-                                let p = v.payload();
-                                if let Some(i) = rest.iter().position(|e| e.2 == p) { rest.remove(i); } // only one: values may repeat
-                            }
-                        }
-                        check_listing(self, "IntoValues", format!("{:?}", it), rest.iter().map(vd).collect());
-                    } else {
-                        let mut it = c.drain();
-                        for _ in 0..j {
-                            if let Some((k, _)) = it.next() {
-                                rest.retain(|e| e.0 != k.class());
-                            }
-                        }
-                        check_listing(self, "Drain", format!("{:?}", it), rest.iter().map(pair).collect());
                     }
                 }
             }
@@ -2216,7 +2165,7 @@ impl<'a> Engine<'a> {
             self.sweep(&mut suts[0]);
         }
         // capacities beyond 32 / 64 need histories long enough to fill them
-        let steps = if N > 32 { self.rng.length(3 * N, (5 * N).max(max_steps)) } else { self.rng.length(8, max_steps) };
+        let steps = if N > 256 { self.rng.length(N / 2, N) } else if N > 32 { self.rng.length(3 * N, (5 * N).max(max_steps)) } else { self.rng.length(8, max_steps) };
         let mut escaped = false;
         for i in 0..steps {
             // safety net: a panic that escapes an operation the model expects to return (the individual
@@ -2238,7 +2187,7 @@ impl<'a> Engine<'a> {
                     escaped = true;
                 }
             }
-            if escaped || self.h.failed || ledger::viol_total() > 0 {
+            if escaped || self.h.must_stop() {
                 break;
             }
         }
@@ -2472,6 +2421,14 @@ pub fn history<F: Fam, const N: usize>(cx: &mut Ctx, hist: u64, mut rng: Rng, ma
     };
     e.light = e.cx.args.flag("light");
     e.h.retag_unchecked = e.cx.prop == "C18";
+    e.h.own_prop = e.cx.prop.clone();
+    e.h.tag_mod = F::TAG_MOD;
+    if e.cx.prop == "C09" {
+        // an iter_probe step only walks borrowing iterators and writes through iter_mut / values_mut: a
+        // lookup or traversal that disagrees with the model in that very step is "writes made through
+        // iter_mut or values_mut are exactly what later lookups return" (or the entries are not yielded)
+        e.h.dual.push(("C01", "iter_probe", "C09"));
+    }
     if e.cx.prop == "C01" {
         // C01 lists drain among its operations: the pairs a drain hands back are its return value
         e.h.dual.push(("C10", "drain", "C01"));
